@@ -259,6 +259,28 @@ def random_formats(chk, n):
         check_pictures(chk, font, cfg, srcs, glyphs, tol, f"random scenario {k} [{fmt}]", replay, raw=raw, deltas=deltas)
 
 
+def transform_fill_grid(chk):
+    """user transform kinds x gradient kinds, as picosvg documents (the glyph's <g> carries the transform, gradients are
+    written in viewBox coordinates with a gradientTransform)."""
+    from picosvg.svg_transform import Affine2D
+
+    for k, (label, t, glyphs) in enumerate(S.transform_fill_grid()):
+        fmt = "picosvg" if k % 4 else "picosvgz"
+        cfgkw = dict(color_format=fmt, keep_glyph_names=True, reuse_tolerance=0.1, clip_to_viewbox=False, transform=t)
+        cfg = build.base_config(**cfgkw)
+        srcs = CC.sources_from(glyphs)
+        replay = {"kind": "transform-x-fill", "label": label, "config": {a: str(b) for a, b in cfgkw.items()}, "svgs": [x.svg_text for x in srcs]}
+        chk.case(key=("grid", label), nontrivial=True)
+        chk.traces_validated += 1
+        try:
+            _, font = build.build(cfg, srcs, already_pico=True)
+        except Exception as e:
+            chk.violation(f"valid source fails to build with user transform {t} ({fmt}): {type(e).__name__}: {str(e)[:200]}", replay)
+            continue
+        structural_checks(chk, font, f"grid {label}", replay)
+        check_pictures(chk, font, cfg, srcs, glyphs, 0.1, f"grid [{label}] [{fmt}]", replay, deltas=CC.layer_deltas(glyphs, cfg, 0.1))
+
+
 def shared_gradient_documents(chk, n):
     for k in range(n):
         r = common.rng("C02", "sg", k)
@@ -308,6 +330,7 @@ def run(chk):
     chk.exhaustive = True
     replay_model(chk, res.records, 100 if quick else 3000)
     random_formats(chk, 50 if quick else 1500)
+    transform_fill_grid(chk)
     shared_gradient_documents(chk, 16 if quick else 400)
     chk.assumptions += ["OT-SVG/SVG 1.1 semantics as implemented by harness/oracle_otsvg.py (g, path, use, defs, basic "
                         "shapes, fill inheritance, opacity, gradients)", "picosvg reuses isometric copies (assumption of the model; "
